@@ -770,6 +770,84 @@ def gen_cfi_table(repo, outdir):
     T.write(outdir, 'CfiTable.v', text)
 
 
+
+# ---- LineTable.v ------------------------------------------------------------------------------
+
+def gen_line_table(repo, outdir):
+    consts = all_constants(repo)
+    src = src_of(repo, 'src/read/line.rs')
+    impl = impl_block(src, r'impl\s*<\s*R\s*,\s*Offset\s*>\s*LineInstruction\s*<\s*R\s*,\s*Offset\s*>\s*where[^{]*')
+    body = T.fn_body(impl, r"fn\s+parse\s*<\s*'header\s*>\s*\(")
+    sq = squeeze(body)
+    fr = re.fullmatch(r'letopcode=input\.read_u8\(\)\?;ifopcode==0\{letlength=input\.read_uleb128\(\)\.and_then\(R::Offset::from_u64\)\?;'
+                      r'letmutinstr_rest=input\.split\(length\)\?;letopcode=instr_rest\.read_u8\(\)\?;matchconstants::DwLne\(opcode\)\{.*\}\}'
+                      r'elseifopcode>=header\.opcode_base\{Ok\(LineInstruction::Special\(opcode\)\)\}'
+                      r'else\{matchconstants::DwLns\(opcode\)\{.*\}\}', sq, re.S)
+    if not fr:
+        raise Unparsed('LineInstruction::parse has an unexpected frame')
+
+    def table(scrut, prefix, other_ctors):
+        rows, default = [], None
+        for pats, expr in T.match_arms(body, scrut):
+            e = squeeze(expr)
+            cs = []
+            for c in re.findall(r'LineInstruction::(\w+)', e):
+                if c not in cs:
+                    cs.append(c)
+            if pats == ['otherwise']:
+                if cs != other_ctors:
+                    raise Unparsed('catch-all arm of the %s match builds %r' % (prefix, cs))
+                default = cs
+                continue
+            if default is not None or not cs:
+                raise Unparsed('arm %r' % pats)
+            for v in T.pat_values(pats, consts, prefix):
+                rows.append('(%d, %s)' % (v, coq_list(strings(cs), per_line=4)))
+        if default is None:
+            raise Unparsed('no catch-all arm in the %s match' % prefix)
+        return rows
+    ext = table(r'constants::DwLne\(\s*opcode\s*\)', 'DW_LNE_', ['UnknownExtended'])
+    std = table(r'constants::DwLns\(\s*opcode\s*\)', 'DW_LNS_', ['UnknownStandard0', 'UnknownStandard1', 'UnknownStandardN'])
+    text = (HEADER % 'src/read/line.rs (LineInstruction::parse)' +
+            'From Coq Require Import List NArith String.\nImport ListNotations.\nLocal Open Scope string_scope.\nLocal Open Scope N_scope.\n\n'
+            '(* opcode 0: extended opcode -> the LineInstruction variants its arm can build; not listed: UnknownExtended *)\n'
+            'Definition extended_table : list (N * list string) :=\n  %s.\n\n'
+            '(* 0 < opcode < opcode_base: standard opcode -> variant; not listed: UnknownStandard0/1/N by standard_opcode_lengths.\n'
+            '   opcode >= opcode_base: Special *)\n'
+            'Definition standard_table : list (N * list string) :=\n  %s.\n'
+            % (coq_list(ext, per_line=2), coq_list(std, per_line=3)))
+    T.write(outdir, 'LineTable.v', text)
+
+
+# ---- CaseFold.v -------------------------------------------------------------------------------
+
+def gen_case_fold(repo, outdir):
+    src = src_of(repo, 'src/case_fold.rs')
+    if squeeze(T.fn_body(src, r'fn\s+case_fold_data\s*\(\s*c\s*:\s*char\s*\)\s*->\s*char')) != \
+            'matchCASE_FOLD_DATA.binary_search_by(|&(key,_)|key.cmp(&c)){Ok(i)=>CASE_FOLD_DATA[i].1,Err(_)=>c,}':
+        raise Unparsed('case_fold_data has an unexpected body')
+    if 'include!("case_fold_data.rs");' not in src:
+        raise Unparsed('case_fold.rs does not include case_fold_data.rs')
+    data = open(os.path.join(repo, 'src/case_fold_data.rs')).read()   # char literals: do not strip `//`
+    m = re.search(r'CASE_FOLD_DATA\s*:\s*&?\s*\[\s*\(\s*char\s*,\s*char\s*\)\s*;\s*(\d+)\s*\]\s*=\s*&?\s*\[', data)
+    if not m:
+        raise Unparsed('CASE_FOLD_DATA not found')
+    i = m.end() - 1
+    inner = data[i + 1:T.matching(data, i, '[', ']') - 1]
+    pairs = re.findall(r"\(\s*'(\\u\{[0-9a-fA-F]+\}|[^'\\])'\s*,\s*'(\\u\{[0-9a-fA-F]+\}|[^'\\])'\s*\)", inner)
+
+    def cp(t):
+        return int(t[3:-1], 16) if t.startswith('\\u') else ord(t)
+    if len(pairs) != int(m.group(1)) or re.sub(r"\(\s*'(?:\\u\{[0-9a-fA-F]+\}|[^'\\])'\s*,\s*'(?:\\u\{[0-9a-fA-F]+\}|[^'\\])'\s*\)|[\s,]", '', inner):
+        raise Unparsed('CASE_FOLD_DATA: %d pairs parsed, %s declared' % (len(pairs), m.group(1)))
+    rows = ['(%d, %d)' % (cp(a), cp(b)) for a, b in pairs]
+    text = (HEADER % 'src/case_fold_data.rs (CASE_FOLD_DATA), src/case_fold.rs (case_fold_data)' +
+            'From Coq Require Import List NArith.\nImport ListNotations.\nLocal Open Scope N_scope.\n\n'
+            '(* (scalar value, folded scalar value); case_fold_data binary-searches the first components *)\n'
+            'Definition case_fold_data : list (N * N) :=\n  %s.\n' % coq_list(rows, per_line=8))
+    T.write(outdir, 'CaseFold.v', text)
+
+
 JOBS = [
     ('Constants', gen_constants),
     ('EhPe', gen_ehpe),
@@ -779,4 +857,6 @@ JOBS = [
     ('Loader', gen_loader),
     ('OpTable', gen_op_table),
     ('CfiTable', gen_cfi_table),
+    ('LineTable', gen_line_table),
+    ('CaseFold', gen_case_fold),
 ]
